@@ -388,9 +388,9 @@ func main() {
 	cf.CaseType = "c14_case"
 	cf.Checks = []lib.Check{{Name: "tie", Kind: "tie", Fn: "c14_tie"}, {Name: "spec", Kind: "spec", Fn: "c14_spec"}}
 	thorough := f.Tier == "thorough"
-	exLen, nRandom, randLen := 3, 5, 60
+	exLen, nRandom, randLen := 3, 4, 40
 	if thorough {
-		exLen, nRandom, randLen = 5, 30, 300
+		exLen, nRandom, randLen = 4, 12, 150
 	}
 	cf.Side.Rule = fmt.Sprintf("every prototype of aggregates.Aggregates (%d overloads incl. DISTINCT): all valid add/retract histories of length %d "+
 		"(hence all shorter ones, as prefixes) over a seed-chosen 3-value domain per overload (one overload per run also at length %d), plus %d random valid histories "+
